@@ -79,6 +79,15 @@ def record_trace(fn, watch_prefix=None):
 
         return g
 
+    o_osopen = os.open
+
+    def f_osopen(path, flags, *a, **k):
+        # low-level creation of a file (lock files, mkstemp): recorded as an open that leaves an empty file
+        if flags & os.O_CREAT and watched(path):
+            trace.append(["open", os.path.abspath(os.fspath(path)), "x" if flags & os.O_EXCL else ("w" if flags & os.O_TRUNC else "a")])
+        return o_osopen(path, flags, *a, **k)
+
+    os.open = f_osopen
     builtins.open = f_open
     os.mkdir = wrap("mkdir", o_mkdir, 1)
     os.replace = wrap("replace", o_replace, 2)
@@ -93,6 +102,7 @@ def record_trace(fn, watch_prefix=None):
         res = fn()
     finally:
         builtins.open = o_open
+        os.open = o_osopen
         os.mkdir, os.replace, os.rename, os.remove, os.rmdir = o_mkdir, o_replace, o_rename, o_remove, o_rmdir
         os.makedirs, os.utime, os.chmod, os.truncate, os.unlink = o_makedirs, o_utime, o_chmod, o_truncate, o_unlink
     return trace, res
@@ -137,13 +147,22 @@ def apply_ops(root_src, root_dst, ops, torn=None, lazy=False):
                 with open(mp(renamed.get(op[1], op[1])), "ab") as f:
                     f.write(pending.pop(op[1]))
         elif k == "replace":
-            os.replace(mp(op[1]), mp(op[2]))
+            try:
+                os.replace(mp(op[1]), mp(op[2]))
+            except FileNotFoundError:
+                pass  # (the source was created through a call the recorder does not see)
             if lazy:
                 renamed[op[1]] = op[2]
         elif k == "remove":
-            os.remove(mp(op[1]))
+            try:
+                os.remove(mp(op[1]))
+            except FileNotFoundError:
+                pass
         elif k == "rmdir":
-            os.rmdir(mp(op[1]))
+            try:
+                os.rmdir(mp(op[1]))
+            except OSError:
+                pass
         else:
             pass
 
@@ -282,7 +301,12 @@ def enumerate_crash_states(root, run_create, limit=None, torn_mode="sample"):
             shutil.rmtree(os.path.join(work, "s"), ignore_errors=True)
             os.makedirs(os.path.join(work, "s"))
             shutil.copytree(pristine, dst, symlinks=True)
-            apply_ops(root, dst, trace[:plen], torn, lazy=lazy)
+            try:
+                apply_ops(root, dst, trace[:plen], torn, lazy=lazy)
+            except Exception as e:
+                # the recorded operations cannot be replayed: the run did something the recorder does not understand
+                res.setdefault("replay_errors", []).append(f"prefix of {plen} recorded operations cannot be replayed on a copy: {e!r}")
+                continue
             label = f"after op {plen}/{len(trace)} ({trace[plen-1][0] if plen else 'start'}{'' if torn is None else f', last write torn at {torn}'}{', buffered data lost' if lazy else ''})"
             probs = check_recoverable(pre, dst, post, label)
             if probs:
@@ -317,9 +341,31 @@ def run_interrupted(fn, k, watch_prefix, exc=KeyboardInterrupt):
             raise exc() if exc is KeyboardInterrupt else exc
         cnt[0] += 1
 
+    class _WI:
+        """a file opened for writing whose every write() is an interruption point as well (the data of the interrupted
+        write is not written)"""
+
+        def __init__(self, f):
+            self._f = f
+
+        def write(self, b):
+            tick()
+            return self._f.write(b)
+
+        def __enter__(self):
+            self._f.__enter__()
+            return self
+
+        def __exit__(self, *a):
+            return self._f.__exit__(*a)
+
+        def __getattr__(self, n):
+            return getattr(self._f, n)
+
     def f_open(file, mode="r", *a, **kw):
         if any(c in mode for c in "wax+") and isinstance(file, (str, bytes, os.PathLike)) and watched(file):
             tick()
+            return _WI(o_open(file, mode, *a, **kw))
         return o_open(file, mode, *a, **kw)
 
     def wrap(orig, nargs):
@@ -343,7 +389,7 @@ def run_interrupted(fn, k, watch_prefix, exc=KeyboardInterrupt):
     return hit[0]
 
 
-def enumerate_interrupt_states(root, make_run, limit=40):
+def enumerate_interrupt_states(root, make_run, limit=120, examine=None, exc=KeyboardInterrupt):
     """root: prepared world (left untouched).  make_run(copy_root) -> callable that runs the real create on that copy.
     For k = 0, 1, ...: a fresh copy, create interrupted at the k-th mutating call by an exception that unwinds, then the
     same examination as after a kill.  Stops when the run completes without reaching point k."""
@@ -361,13 +407,14 @@ def enumerate_interrupt_states(root, make_run, limit=40):
             dst = os.path.join(work, "s%d" % k, os.path.basename(root))
             os.makedirs(os.path.dirname(dst))
             shutil.copytree(root, dst, symlinks=True)
-            reached = run_interrupted(make_run(dst), k, os.path.abspath(dst))
+            reached = run_interrupted(make_run(dst), k, os.path.abspath(dst), exc=exc)
             if not reached:
                 shutil.rmtree(os.path.dirname(dst), ignore_errors=True)
                 break
             res["states"] += 1
             # names in `post` carry the same frozen time stamp, so the comparison by name works
-            probs = check_recoverable(pre, dst, post, f"create interrupted (exception unwinding, e.g. Ctrl-C) at its mutating file-system call #{k}")
+            label = f"create interrupted (exception unwinding, e.g. Ctrl-C or a failing system call) at its mutating file-system call #{k}"
+            probs = examine(pre, dst, post, label) if examine else check_recoverable(pre, dst, post, label)
             res["unrecoverable"].extend(probs)
             shutil.rmtree(os.path.dirname(dst), ignore_errors=True)
     finally:
